@@ -1125,6 +1125,8 @@ def fault_lines():
         ("syntax", [line("garbage", text="%%% what")]),
         ("syntax", [line("garbage", text='.db "unterminated')]),
         ("syntax", [line("garbage", text=".dw 1 2")]),
+        ("syntax", [line("garbage", text=".def acc = 1+2")]),
+        ("syntax", [line("garbage", text=".def acc = 5")]),
         ("syntax", [line("garbage", text=".db 5 'a'")]),
         ("syntax", [line("garbage", text=".org 4 5")]),
         ("syntax", [line("garbage", text="ldi r16 1")]),
@@ -1632,6 +1634,13 @@ def check_c09(prop, tier, seed, devices):
                 und = [l for l in copy.deepcopy(prog)]
                 und.append(call("nosuchmacro", R(1)))
                 cases.append(Case(und, tag="macro.undefined"))
+    # a long sum / a long mixed chain as an argument reaches the body as it would be read on a plain line
+    for nterms in (40, 64, 65, 70, 100):
+        e = lit(1)
+        for i in range(nterms - 1):
+            e = binop(("+", "-", "+", "|")[i % 4] if nterms == 100 else "+", e, lit(1 + i % 3))
+        cases.append(Case([line("macro", n="sum"), instr("ldi", R(16), E(binop("&", arg(0), lit(255)))), data(2, E(binop("&", binop("*", arg(0), lit(3)), lit(0xffff)))), line("endm"),
+                           call("sum", E(e)), instr("ldi", R(17), E(binop("&", copy.deepcopy(e), lit(255))))], tag="long-argument"))
     # many calls in one build, flat and nested (any number of times)
     for ncalls in (63, 64, 65, 100, 300):
         cases.append(Case([line("macro", n="one"), instr("inc", ARG(0)), line("endm")] + [call("one", R(16 + i % 16)) for i in range(ncalls)], tag="many-calls"))
